@@ -14,6 +14,15 @@ def _rayon(n):
 
 
 PLAN = {
+    "C09": {
+        "level": "fault_enumeration",
+        "engines": lambda tier: [_e("release", "crashmc", "c09", also_build=[("shim", "faultfs")])],
+        "assumptions": [
+            "crash = process termination (kill at a write call after a partial write); power loss / page-cache loss is excluded by the property",
+            "faults are injected by an LD_PRELOAD shim on write/pwrite/writev (copy_file_range/sendfile/splice are refused so that std falls back to write); renames are raw syscalls, atomic, and not faulted themselves",
+            "the write history is deterministic (two recording runs are compared call by call) and complete (per-inode byte accounting against final file sizes + one strace listing)",
+        ],
+    },
     "C12": {
         "level": "model_checking",
         "engines": lambda tier: [_e("release", "locmc", "c12")],
